@@ -1,10 +1,38 @@
 import Driver.Util
-open Lean Driver
+import Driver.Img
+import GinjaxVerif.Model.Action
+open Lean Driver GinjaxVerif
 
 namespace Driver.C02
 
-def handle (op : String) (_j : Json) : R Json := do
+def handle (op : String) (j : Json) : R Json := do
+  let d ← natF j "d"
+  let M ← field j "M" >>= parseMat d
+  if !isSignedPerm M then throw "not a signed permutation matrix"
   match op with
+  | "c02.tge" =>
+    let p ← natF j "p"
+    let A ← field j "image" >>= parseImg d
+    pure (imgToJson (tge M p A))
+  | "c02.tge_legacy" =>
+    let p ← natF j "p"
+    let A ← field j "image" >>= parseImg d
+    pure (imgToJson (tgeLegacy M p A))
+  | "c02.act_spec" =>
+    let p ← natF j "p"
+    let A ← field j "image" >>= parseImg d
+    pure (imgToJson (actSpec M p A))
+  | "c02.meta" =>
+    let dims ← listF asNat j "dims"
+    let flags ← listF asBool j "flags"
+    if dims.length ≠ d ∨ flags.length ≠ d then throw "dims/flags must have length d"
+    pure (Json.mkObj [
+      ("dims", jList jNat (fnToList (rotDims M (listToFn d 0 dims)))),
+      ("flags", jList jBool (fnToList (transport M (listToFn d false flags)))),
+      ("det", jInt (det M))])
+  | "c02.mul" =>
+    let N ← field j "N" >>= parseMat d
+    pure (jList (jList jInt) (fnToList (fun i => fnToList (Mat.mul M N i))))
   | _ => throw s!"unknown op {op}"
 
 end Driver.C02
